@@ -18,6 +18,18 @@ CHECKS = {
         technique="TLA+ spec (Codec/CodecMC) model-checked by TLC + TLC-generated vectors replayed into code + trace validation (TraceCodec)",
         design_ref="3.1, 4 C17",
     ),
+    "C16": dict(
+        level="model_checking",
+        text="TLC enumerates every name over the component alphabet {a,b,..,.,'',c:,probe names} x lead slashes x trailing slash up to "
+             "4 (quick) / 5 (thorough) components and checks that the transcription of check_archive_path agrees with the independent "
+             "definition; the same run emits each name with the specification's verdict, which is compared with the real "
+             "check_archive_path (exhaustive); recorded writestr/writef/write/writeall sessions (incl. random Unicode names, all 6-component "
+             "names in thorough) are validated by TLC against TraceNames: verdict, archive unchanged by a rejected call, listing relative.",
+        note="Trusted: TLC, the independent definition SpecVerdict in Names.tla; component classes abstract concrete strings (ordinary "
+             "components are interchangeable for the verdict). POSIX path semantics only.",
+        technique="TLA+ spec (Names/NamesMC) exhaustively model-checked + TLC-enumerated names replayed into code + trace validation (TraceNames)",
+        design_ref="3.7, 4 C16",
+    ),
 }
 
 NOT_YET = {}  # id -> reason; filled below for every property without a check
